@@ -557,7 +557,12 @@ type outcome struct {
 // judgeTorrent runs ReadTorrent on in and applies every clause.  cls is the
 // input class of the generator (used in fingerprints only).
 func judgeTorrent(c *vk.C, in []byte, cls string) outcome {
-	o := judgeTorrent0(c, in, cls)
+	return judgeTorrentV(c, in, scan(in))
+}
+
+// judgeTorrentV: same with the harness' view of the input already computed.
+func judgeTorrentV(c *vk.C, in []byte, v *view) outcome {
+	o := judgeTorrent0(c, in, v)
 	relieve(c)
 	return o
 }
@@ -581,10 +586,9 @@ func relieve(c *vk.C) {
 	}
 }
 
-func judgeTorrent0(c *vk.C, in []byte, cls string) outcome {
+func judgeTorrent0(c *vk.C, in []byte, v *view) outcome {
 	c.Count("inputs", 1)
 	c.Count("torrent_inputs", 1)
-	v := scan(in)
 	t, err, pan := readTorrent(in)
 	if pan != nil {
 		c.Count("panics", 1)
@@ -2244,12 +2248,13 @@ func runParse(r *vk.Run) {
 		}
 		d := &pdesc{Part: "parse", Family: "systematic", Class: sc.name, Len: len(sc.in), Head: head(sc.in)}
 		c := r.Begin(i, d)
-		if !scan(sc.in).safeForParsePart() {
+		v := scan(sc.in)
+		if !v.safeForParsePart() {
 			c.Count("skipped_unsafe_geometry", 1)
 			c.End()
 			continue
 		}
-		o := judgeTorrent(c, sc.in, sc.name)
+		o := judgeTorrentV(c, sc.in, v)
 		c.Count("systematic_cases", 1)
 		c.FP(vk.Hash64("sys", sc.name, o.class), true)
 		c.End()
@@ -2304,12 +2309,13 @@ func runParse(r *vk.Run) {
 		}
 		d := &pdesc{Part: "parse", Family: fam, Class: cls, Len: len(in), Head: head(in)}
 		c := r.Begin(i, d)
-		if !scan(in).safeForParsePart() {
+		v := scan(in)
+		if !v.safeForParsePart() {
 			c.Count("skipped_unsafe_geometry", 1)
 			c.End()
 			continue
 		}
-		o := judgeTorrent(c, in, cls)
+		o := judgeTorrentV(c, in, v)
 		c.Count("family:"+fam, 1)
 		if fam == "valid" && !o.accepted {
 			c.Count("valid_not_accepted", 1)
